@@ -104,6 +104,25 @@ func segmentFMP4CanBeConcatenated(
 	}
 }
 
+// readExactly reads n bytes, that is a value that comes from a file that may be damaged:
+// memory is allocated as data is read and not in advance.
+func readExactly(r io.Reader, n int64) ([]byte, error) {
+	if n < 0 {
+		return nil, fmt.Errorf("invalid size")
+	}
+
+	buf, err := io.ReadAll(io.LimitReader(r, n))
+	if err != nil {
+		return nil, err
+	}
+
+	if int64(len(buf)) != n {
+		return nil, io.ErrUnexpectedEOF
+	}
+
+	return buf, nil
+}
+
 func segmentFMP4ReadHeader(r io.ReadSeeker) (*fmp4.Init, time.Duration, error) {
 	// check and skip ftyp
 
@@ -165,9 +184,7 @@ func segmentFMP4ReadHeader(r io.ReadSeeker) (*fmp4.Init, time.Duration, error) {
 		return nil, 0, err
 	}
 
-	buf = make([]byte, uint64(ftypSize+moovSize))
-
-	_, err = io.ReadFull(r, buf)
+	buf, err = readExactly(r, int64(ftypSize)+int64(moovSize))
 	if err != nil {
 		return nil, 0, err
 	}
@@ -334,9 +351,8 @@ outer:
 
 		tfhdSize := uint32(buf[0])<<24 | uint32(buf[1])<<16 | uint32(buf[2])<<8 | uint32(buf[3])
 
-		buf2 := make([]byte, tfhdSize-8)
-
-		_, err = io.ReadFull(r, buf2)
+		var buf2 []byte
+		buf2, err = readExactly(r, int64(tfhdSize)-8)
 		if err != nil {
 			return 0, err
 		}
@@ -365,9 +381,7 @@ outer:
 
 		tfdtSize := uint32(buf[0])<<24 | uint32(buf[1])<<16 | uint32(buf[2])<<8 | uint32(buf[3])
 
-		buf2 = make([]byte, tfdtSize-8)
-
-		_, err = io.ReadFull(r, buf2)
+		buf2, err = readExactly(r, int64(tfdtSize)-8)
 		if err != nil {
 			return 0, err
 		}
@@ -391,9 +405,7 @@ outer:
 
 		trunSize := uint32(buf[0])<<24 | uint32(buf[1])<<16 | uint32(buf[2])<<8 | uint32(buf[3])
 
-		buf2 = make([]byte, trunSize-8)
-
-		_, err = io.ReadFull(r, buf2)
+		buf2, err = readExactly(r, int64(trunSize)-8)
 		if err != nil {
 			return 0, err
 		}
@@ -555,16 +567,7 @@ func segmentFMP4MuxParts(
 					(e.SampleFlags&sampleFlagIsNonSyncSample) != 0,
 					e.SampleSize,
 					func() ([]byte, error) {
-						payload := make([]byte, sampleSize)
-						n, err2 := r.ReadAt(payload, int64(sampleOffset))
-						if err2 != nil {
-							return nil, err2
-						}
-						if n != int(sampleSize) {
-							return nil, fmt.Errorf("partial read")
-						}
-
-						return payload, nil
+						return readExactly(io.NewSectionReader(r, int64(sampleOffset), int64(sampleSize)), int64(sampleSize))
 					},
 				)
 				if err != nil {
